@@ -236,6 +236,76 @@ func rewriteFile(name string, src []byte, stats map[string]int) ([]byte, int, er
 	if ferr != nil {
 		return nil, 0, ferr
 	}
+
+	// Yield points: in every function that communicates over channels or starts goroutines, each block
+	// begins with a scheduling point, so that the scheduler - not the Go runtime - decides how the
+	// library's own goroutines interleave around their channel hand-offs.
+	yields := 0
+	addYields := func(body *ast.BlockStmt) {
+		if body == nil {
+			return
+		}
+		var skip = map[*ast.BlockStmt]bool{}
+		ast.Inspect(body, func(n ast.Node) bool {
+			switch x := n.(type) {
+			case *ast.SwitchStmt:
+				skip[x.Body] = true
+			case *ast.TypeSwitchStmt:
+				skip[x.Body] = true
+			case *ast.SelectStmt:
+				skip[x.Body] = true
+			}
+			return true
+		})
+		ast.Inspect(body, func(n ast.Node) bool {
+			switch x := n.(type) {
+			case *ast.BlockStmt:
+				if !skip[x] && x.Lbrace.IsValid() {
+					off := fset.Position(x.Lbrace).Offset + 1
+					edits = append(edits, edit{off: off, n: 0, with: " vnet.Yield();"})
+					yields++
+				}
+			case *ast.CaseClause:
+				off := fset.Position(x.Colon).Offset + 1
+				edits = append(edits, edit{off: off, n: 0, with: " vnet.Yield();"})
+				yields++
+			case *ast.CommClause:
+				off := fset.Position(x.Colon).Offset + 1
+				edits = append(edits, edit{off: off, n: 0, with: " vnet.Yield();"})
+				yields++
+			}
+			return true
+		})
+	}
+	concurrent := func(body *ast.BlockStmt) bool {
+		found := false
+		if body == nil {
+			return false
+		}
+		ast.Inspect(body, func(n ast.Node) bool {
+			switch x := n.(type) {
+			case *ast.SendStmt, *ast.GoStmt, *ast.SelectStmt:
+				found = true
+			case *ast.UnaryExpr:
+				if x.Op == token.ARROW {
+					found = true
+				}
+			case *ast.CallExpr:
+				if id, ok := x.Fun.(*ast.Ident); ok && id.Name == "close" && id.Obj == nil {
+					found = true
+				}
+			}
+			return !found
+		})
+		return found
+	}
+	for _, d := range file.Decls {
+		if fd, ok := d.(*ast.FuncDecl); ok && concurrent(fd.Body) {
+			addYields(fd.Body)
+		}
+	}
+	stats["yield-points"] += yields
+
 	if len(edits) == 0 {
 		return src, 0, nil
 	}
@@ -244,7 +314,7 @@ func rewriteFile(name string, src []byte, stats map[string]int) ([]byte, int, er
 	pe := fset.Position(file.Name.End())
 	edits = append(edits, edit{off: pe.Offset, n: 0, with: `; import vnet "verif/sim/vnet"`})
 
-	sort.Slice(edits, func(i, j int) bool { return edits[i].off < edits[j].off })
+	sort.SliceStable(edits, func(i, j int) bool { return edits[i].off < edits[j].off })
 
 	var b strings.Builder
 	at := 0
